@@ -3,6 +3,7 @@ package scen
 import (
 	"bytes"
 	"context"
+	"encoding/json"
 	"fmt"
 	"strings"
 
@@ -205,6 +206,8 @@ func c20(p Params) func() {
 			vsched.Logf("%s", hist)
 		case "ctx":
 			c20ctx(depth)
+		case "unknown":
+			c20unknown(depth)
 		}
 	}
 }
@@ -329,4 +332,82 @@ func c20ctx(depth int) {
 		}
 	}
 	vsched.Logf("%s|%d", hist, firstFails)
+}
+
+// c20unknown: every sequence of `depth` messages for unregistered routes -- CALL or PUSH, on one of two sessions of
+// the same peer, with an empty, a short or a long body -- handled by the peer's unknown-call/unknown-push handlers
+// (the proxy's entry points). Each handler must see exactly the body bytes of its own message (a recycled context
+// may not show the bytes of an earlier message of any session), again after a yield, and each CALL is answered
+// with the echo of its own body.
+func c20unknown(depth int) {
+	srv := world.NewPeer("json")
+	type seen struct {
+		method string
+		body   string
+	}
+	var log []seen
+	srv.SetUnknownCall(func(ctx erpc.UnknownCallCtx) (interface{}, *erpc.Status) {
+		b := string(ctx.InputBodyBytes())
+		vsched.Yield()
+		if again := string(ctx.InputBodyBytes()); again != b {
+			vsched.Failf("unknown-call handler: the input body changed while the handler ran: %q then %q", b, again)
+		}
+		log = append(log, seen{ctx.ServiceMethod(), b})
+		r := "echo:" + b
+		return &r, nil
+	})
+	srv.SetUnknownPush(func(ctx erpc.UnknownPushCtx) *erpc.Status {
+		b := string(ctx.InputBodyBytes())
+		vsched.Yield()
+		if again := string(ctx.InputBodyBytes()); again != b {
+			vsched.Failf("unknown-push handler: the input body changed while the handler ran: %q then %q", b, again)
+		}
+		log = append(log, seen{ctx.ServiceMethod(), b})
+		return nil
+	})
+	var raws [2]*vnet.Conn
+	for i := range raws {
+		r, sc := vnet.Pipe(vnet.NewAddr(), vnet.NewAddr())
+		if _, st := srv.ServeConn(sc); !st.OK() {
+			vsched.Failf("ServeConn: %v", st)
+		}
+		raws[i] = r
+	}
+	bodies := []string{"", `"` + dirtyMark + `"`, `"` + strings.Repeat(dirtyMark, 6) + `"`}
+	hist := ""
+	for i := 0; i < depth; i++ {
+		k := vsched.Choose(12, "msg")
+		si, push, bi := k%2, (k/2)%2 == 1, k/4
+		method := fmt.Sprintf("/nowhere/m%d", i)
+		f := world.Frame{Seq: int32(i + 1), Mtype: erpc.TypeCall, Method: method, Codec: 'j', Body: []byte(bodies[bi])}
+		if push {
+			f.Mtype = erpc.TypePush
+		}
+		hist += fmt.Sprintf("s%d:%s:%dB ", si, map[bool]string{false: "call", true: "push"}[push], len(bodies[bi]))
+		n0, l0 := len(raws[si].Peer().Written), len(log)
+		raws[si].Write(f.Bytes())
+		vsched.Quiesce()
+		if len(log) != l0+1 {
+			vsched.Failf("unknown handler ran %d times for one message | %s", len(log)-l0, hist)
+		}
+		if got := log[l0]; got.method != method || got.body != bodies[bi] {
+			vsched.Failf("the unknown handler saw another message's body: method %q body %q, sent method %q body %q | %s", got.method, got.body, method, bodies[bi], hist)
+		}
+		out := raws[si].Peer().Written[n0:]
+		if push {
+			if len(out) != 0 {
+				vsched.Failf("a PUSH was answered | %s", hist)
+			}
+			continue
+		}
+		rf, _, err := world.ParseFrame(out)
+		if err != nil {
+			vsched.Failf("no well-formed reply to an unknown-route CALL: %v | %s", err, hist)
+		}
+		wantBody, _ := json.Marshal("echo:" + bodies[bi])
+		if rf.Seq != f.Seq || rf.Mtype != erpc.TypeReply || !bytes.Equal(rf.Body, wantBody) {
+			vsched.Failf("reply of an unknown-route CALL is not the echo of its own body: got %s, want body %q | %s", rf.String(), wantBody, hist)
+		}
+	}
+	vsched.Logf("%s", hist)
 }
